@@ -348,7 +348,8 @@ tl::expected<std::string, errors> canonicalize_hostname(
   // IMPORTANT: The protocol needs to be a special protocol, otherwise the
   // hostname will not be converted using IDNA.
   auto url = ada::parse<url_aggregator>("https://dummy.test", nullptr);
-  ADA_ASSERT_TRUE(url);
+  // The dummy URL is subject to the configured maximum length like any parse.
+  if (!url) return tl::unexpected(errors::type_error);
   // if (!isValidHostnameInput(hostname)) return kj::none;
   if (!url->set_hostname(input)) {
     // If parseResult is failure, then throw a TypeError.
@@ -528,7 +529,8 @@ tl::expected<std::string, errors> canonicalize_pathname(
   // '?' or '#'. set_pathname runs the parser in path state override, matching
   // how canonicalize_hostname uses set_hostname.
   auto url = ada::parse<url_aggregator>("fake://fake-url", nullptr);
-  ADA_ASSERT_TRUE(url);
+  // The dummy URL is subject to the configured maximum length like any parse.
+  if (!url) return tl::unexpected(errors::type_error);
   if (!url->set_pathname(modified_value)) {
     // If parseResult is failure, then throw a TypeError.
     return tl::unexpected(errors::type_error);
